@@ -400,6 +400,13 @@ def _origin(prog, f, e, depth=0, at=None):
             return "sub-election's recorded order"
         if fn == "dominating_tiers":
             return "tiers ordered by reach size"
+        # order-preserving selections of an ordered source: a prefix / a sub-sequence keeps the source's order
+        if fn in ("takewhile", "dropwhile", "filter", "filterfalse") and len(e.args) == 2:
+            o = _origin(prog, f, e.args[1], depth + 1, at)
+            return None if o is None else ("prefix of " if fn == "takewhile" else "sub-sequence of ") + o
+        if fn == "islice" and e.args:
+            o = _origin(prog, f, e.args[0], depth + 1, at)
+            return None if o is None else "sub-sequence of " + o
         return None
     if isinstance(e, ast.Attribute) and e.attr in ("remaining", "elected", "eliminated"):
         return "previous state's recorded order"
@@ -413,6 +420,10 @@ def _origin(prog, f, e, depth=0, at=None):
         g = e.generators[0]
         if isinstance(e.elt, ast.Call) and astx.u(e.elt.func) == "frozenset" and astx.is_name(e.elt.args[0], getattr(g.target, "id", None)):
             return _origin(prog, f, g.iter, depth + 1, at)
+        # [x for x in XS if ...]: a sub-sequence of XS in its order
+        if astx.is_name(e.elt, getattr(g.target, "id", None)):
+            o = _origin(prog, f, g.iter, depth + 1, at)
+            return None if o is None else ("sub-sequence of " + o if g.ifs else o)
         return None
     return None
 
